@@ -372,6 +372,10 @@ func main() {
 			e.Fail("Product|result", map[string]any{"type": "complex128"}, "Product((1+2i),(3-1i)) = %v", got)
 		}
 	}
+	// ---- variadic length family: Sum/Product/Min/Max over 0..40 arguments of structured values
+	// (inexact decimal fractions, catastrophic cancellation, overflowing partial sums, wrapping
+	// integers) against the plain left-to-right loop
+	variadicFamily()
 	// ---- Digits10 / DigitsSign10 / Abs / Clamp01: every value of every 8- and 16-bit type
 	for v := -128; v <= 127; v++ {
 		digitsSigned("int8", int8(v))
@@ -560,4 +564,139 @@ func main() {
 		}
 	}
 	e.Finish(fmt.Sprintf("Min/Max/Clamp/Compare/Less/Sum/Product over all pairs and all triples of int8 and uint8 and over all pairs/triples of a boundary set (0, +-1, powers of ten +-1, powers of two +-1, extremes) for every wider integer type, float32/64 (NaN excluded) and string; Digits10/DigitsSign10/Abs/Clamp01 on every value of every 8- and 16-bit type, every 32-bit value with stride %d plus boundaries, boundary sets for 64-bit/int/uint/uintptr; references: strconv, wide arithmetic truncated to the type; complete truth tables for Coal/Zero/ZeroOf/IsZero/Tern/TernCast/Ref/DerefZero/IsNil", stride))
+}
+
+func variadicFloat[T ~float32 | ~float64](name string, gens []func(i int) float64) {
+	for gi, g := range gens {
+		for n := 0; n <= 40; n++ {
+			args := make([]T, n)
+			for i := range args {
+				args[i] = T(g(i))
+			}
+			e.Input(n >= 4)
+			var ws, wp T = 0, 1
+			for _, v := range args {
+				ws += v
+				wp *= v
+			}
+			gs, gp := typ.Sum(args...), typ.Product(args...)
+			e.Call()
+			e.Call()
+			same := func(a, b T) bool { return a == b || (a != a && b != b) }
+			if !same(gs, ws) {
+				e.Fail("Sum|result", map[string]any{"type": name, "generator": gi, "args": n}, "Sum[%s] of %d arguments (generator %d) = %v, left-to-right sum is %v", name, n, gi, gs, ws)
+			}
+			if !same(gp, wp) {
+				e.Fail("Product|result", map[string]any{"type": name, "generator": gi, "args": n}, "Product[%s] of %d arguments (generator %d) = %v, left-to-right product is %v", name, n, gi, gp, wp)
+			}
+			if n > 0 {
+				mn, mx := args[0], args[0]
+				for _, v := range args[1:] {
+					if v < mn {
+						mn = v
+					}
+					if v > mx {
+						mx = v
+					}
+				}
+				if g1, g2 := typ.Min(args...), typ.Max(args...); g1 != mn || g2 != mx {
+					e.Fail("Min|result", map[string]any{"type": name, "generator": gi, "args": n}, "Min/Max[%s] of %d arguments = %v/%v, want %v/%v", name, n, g1, g2, mn, mx)
+				}
+				e.Call()
+			}
+		}
+	}
+}
+
+func variadicInt[T ~int8 | ~int32 | ~int64 | ~uint8 | ~uint16 | ~uint64](name string) {
+	for gi, g := range []func(i int) int64{
+		func(i int) int64 { return int64(i) },
+		func(i int) int64 { return int64(i*37 - 100) },
+		func(i int) int64 { return []int64{127, -128, 1, -1, 255, 0, 32767, 1 << 40}[i%8] },
+		func(i int) int64 { return int64(3 + i%2) },
+	} {
+		for n := 0; n <= 40; n++ {
+			args := make([]T, n)
+			for i := range args {
+				args[i] = T(g(i))
+			}
+			e.Input(n >= 4)
+			var ws, wp T = 0, 1
+			for _, v := range args {
+				ws += v
+				wp *= v
+			}
+			e.Call()
+			e.Call()
+			if gs := typ.Sum(args...); gs != ws {
+				e.Fail("Sum|result", map[string]any{"type": name, "generator": gi, "args": n}, "Sum[%s] of %d arguments = %v, want %v (wrapping, left to right)", name, n, gs, ws)
+			}
+			if gp := typ.Product(args...); gp != wp {
+				e.Fail("Product|result", map[string]any{"type": name, "generator": gi, "args": n}, "Product[%s] of %d arguments = %v, want %v", name, n, gp, wp)
+			}
+			if n > 0 {
+				mn, mx := args[0], args[0]
+				for _, v := range args[1:] {
+					if v < mn {
+						mn = v
+					}
+					if v > mx {
+						mx = v
+					}
+				}
+				if g1, g2 := typ.Min(args...), typ.Max(args...); g1 != mn || g2 != mx {
+					e.Fail("Min|result", map[string]any{"type": name, "generator": gi, "args": n}, "Min/Max[%s] of %d arguments = %v/%v, want %v/%v", name, n, g1, g2, mn, mx)
+				}
+			}
+		}
+	}
+}
+
+func variadicFamily() {
+	gens := []func(i int) float64{
+		func(i int) float64 { return float64(i+1) / 10 },                                       // 0.1, 0.2, ...: inexact
+		func(i int) float64 { return []float64{1, 1e16, 0, 0, 1, -1e16, 0, 0}[i%8] },           // cancellation
+		func(i int) float64 { return []float64{math.MaxFloat64, -math.MaxFloat64, 0, 0}[i%4] }, // overflowing partial sums
+		func(i int) float64 { return 1 / float64(i+3) },
+		func(i int) float64 { return []float64{1.5, -2.25, 1e-300, 3e300, 7}[i%5] },
+		func(i int) float64 { return float64(i%3) - 1 },
+	}
+	variadicFloat[float64]("float64", gens)
+	variadicFloat[float32]("float32", gens)
+	variadicInt[int8]("int8")
+	variadicInt[int32]("int32")
+	variadicInt[int64]("int64")
+	variadicInt[uint8]("uint8")
+	variadicInt[uint16]("uint16")
+	variadicInt[uint64]("uint64")
+	for n := 0; n <= 20; n++ {
+		args := make([]complex128, n)
+		var ws, wp complex128 = 0, 1
+		for i := range args {
+			args[i] = complex(float64(i+1)/10, 1/float64(i+2))
+			ws += args[i]
+			wp *= args[i]
+		}
+		if typ.Sum(args...) != ws || typ.Product(args...) != wp {
+			e.Fail("Sum|result", map[string]any{"type": "complex128", "args": n}, "Sum/Product[complex128] of %d arguments differ from the left-to-right loops", n)
+		}
+		strs := make([]string, n)
+		for i := range strs {
+			strs[i] = strconv.Itoa((i * 7) % 11)
+		}
+		if n > 0 {
+			mn, mx := strs[0], strs[0]
+			for _, v := range strs[1:] {
+				if v < mn {
+					mn = v
+				}
+				if v > mx {
+					mx = v
+				}
+			}
+			if typ.Min(strs...) != mn || typ.Max(strs...) != mx {
+				e.Fail("Min|result", map[string]any{"type": "string", "args": n}, "Min/Max[string] of %d arguments", n)
+			}
+		}
+	}
 }
